@@ -69,7 +69,7 @@ def enc(cp):
     for c, b in sorted(SPECIAL.items()):
         r = z3.If(e == c, z3.IntVal(b), r)
     r = z3.If(z3.Or(z3.And(e >= 0, e < 0x80), z3.And(e >= 0xA0, e <= 0xFF)), e, r)
-    out = mk_int(r)
+    out = mk_int(r, 8)
     _enc_cache[k] = (e, out)
     return out
 
